@@ -8,7 +8,8 @@ import (
 // shape whose methods pass straight through to the wrapped connection. The server side handshake consumes exactly
 // one TLS record (5-byte header + announced length) from the peer - the place of the ClientHello - and succeeds; the
 // client side handshake exchanges nothing. Certificates, cipher suites, ALPN (always empty: HTTP/1.1), alerts and
-// handshake failures are outside. Harnesses that depend on this model cannot be replayed natively (real TLS runs
+// handshake failures are outside, except that a harness can make the next n client handshakes fail with an opaque error
+// (vfrt.TLSClientHandshakeFails). Harnesses that depend on this model cannot be replayed natively (real TLS runs
 // there) and say so.
 
 func (in *Exec) tlsConnField() int {
@@ -62,16 +63,30 @@ func init() {
 			return p
 		}
 	}
+	reg(vfrtPath+".TLSClientHandshakeFails", func(in *Exec, _ *frame, a []value) value {
+		in.tlsClientFail = int(concInt(in, a[0], "TLSClientHandshakeFails count"))
+		return nil
+	})
 	reg("crypto/tls.Client", mk(false))
 	reg("crypto/tls.Server", mk(true))
 	handshake := func(in *Exec, fr *frame, recv value) value {
 		p := recv.(*value)
 		st := in.tlsServer[p]
+		if st != nil && st.err != nil {
+			return st.err
+		}
 		if st == nil || st.done {
 			return iface{}
 		}
 		st.done = true
 		if !st.server {
+			if in.tlsClientFail > 0 {
+				// the environment decides the outcome of a handshake: the harness asked for this one to fail
+				in.tlsClientFail--
+				var v value = structure{in.mkStr("tls: handshake failure (model)")}
+				st.err = iface{t: types.NewPointer(in.namedType("errors", "errorString")), v: &v}
+				return st.err
+			}
 			return iface{}
 		}
 		// consume one record: header, then the announced number of bytes
@@ -109,7 +124,24 @@ func init() {
 		}
 		return iface{}
 	}
-	reg("(*crypto/tls.Conn).HandshakeContext", func(in *Exec, fr *frame, a []value) value { return handshake(in, fr, a[0]) })
+	reg("(*crypto/tls.Conn).HandshakeContext", func(in *Exec, fr *frame, a []value) value {
+		// the context bounds the handshake (the real package closes the connection when it is done): its deadline is
+		// recorded for the harness (vfrt.TLSHandshakeDeadline)
+		if ctx, ok := a[1].(iface); ok && ctx.t != nil {
+			if m := in.findMethod(ctx.t, "Deadline"); m != nil {
+				if res, ok := in.callSSA(fr, m, []value{ctx.v}, nil).(tuple); ok && len(res) == 2 {
+					in.tlsDeadline = res
+				}
+			}
+		}
+		return handshake(in, fr, a[0])
+	})
+	reg(vfrtPath+".TLSHandshakeDeadline", func(in *Exec, _ *frame, a []value) value {
+		if in.tlsDeadline == nil {
+			return tuple{in.zero(in.namedType("time", "Time")), in.tb.False}
+		}
+		return in.tlsDeadline
+	})
 	reg("(*crypto/tls.Conn).Handshake", func(in *Exec, fr *frame, a []value) value { return handshake(in, fr, a[0]) })
 	reg("(*crypto/tls.Conn).Read", func(in *Exec, fr *frame, a []value) value {
 		if e := handshake(in, fr, a[0]).(iface); e.t != nil {
@@ -157,4 +189,5 @@ func init() {
 type tlsState struct {
 	server bool
 	done   bool
+	err    value // a client handshake the harness made fail (vfrt.TLSClientHandshakeFails): the error every later call reports
 }
